@@ -318,6 +318,9 @@ class Ctx:
 
     def _confirm(self, clause, case, sig) -> tuple[bool, str]:
         fn = self.clauses[clause]
+        if os.environ.get("VERIF_FAULTLOG"):
+            with open(os.environ["VERIF_FAULTLOG"] + ".confirm", "a") as f:
+                f.write(json.dumps({"clause": clause, "sig": sig, "case": case}) + "\n")
         try:
             again = list(fn([case], self))
         except Exception as e:
@@ -326,6 +329,14 @@ class Ctx:
                 raise
             again = [(0, f"{self.pid}/{clause}/crash/{type(e).__name__}@{where}", str(e)[:400])]
         sigs = [s for (_, s, _) in again]
+        # a broken tree can produce dozens of distinct signatures, each confirmed by fresh compilations in this process:
+        # drop the compiled executables regularly (the native JIT aborts once its code memory is exhausted)
+        self._confirms = getattr(self, "_confirms", 0) + 1
+        if self._confirms % 4 == 0 and "jax" in sys.modules:
+            import gc
+
+            sys.modules["jax"].clear_caches()
+            gc.collect()
         return (sig in sigs), next((m for (_, s, m) in again if s == sig), "")
 
     def _file(self, clause, case, sig, msg):
@@ -497,6 +508,10 @@ def main(argv=None) -> int:
     args = ap.parse_args(argv)
     pid = args.prop.upper()
     tier = args.tier if args.tier in ("quick", "thorough") else "quick"
+    if os.environ.get("VERIF_FAULTLOG"):  # development aid: where did a native crash happen?
+        import faulthandler
+
+        faulthandler.enable(file=open(os.environ["VERIF_FAULTLOG"], "w"), all_threads=True)
     if os.environ.get("VERIF_DUMP_AFTER"):
         import faulthandler
 
@@ -518,12 +533,21 @@ def main(argv=None) -> int:
         return ctx.finish()
     except HarnessError as e:
         print(f"HARNESS-ERROR property={pid} {e}")
-        return 2
+        return _finish_partial(locals().get("ctx"), f"exploration stopped by a harness error: {e}")
     except Exception as e:
         traceback.print_exc()
         where = lib_frame(e.__traceback__)
         print(f"HARNESS-ERROR property={pid} uncaught {type(e).__name__} (lerax frame: {where}): {str(e)[:300]}")
+        return _finish_partial(locals().get("ctx"), f"exploration stopped by an uncaught {type(e).__name__}")
+
+
+def _finish_partial(ctx, why: str) -> int:
+    """A harness error after violations were already confirmed and filed (typical on a badly broken tree: a later clause
+    trips over the same defect in a way the harness does not anticipate): the confirmed violations are still reported."""
+    if ctx is None or not ctx.violations:
         return 2
+    ctx.notes["exploration_incomplete"] = why[:300]
+    return ctx.finish()
 
 
 def product_dicts(**axes):
